@@ -20,7 +20,7 @@ Deg(e) == CASE e \in {"P1", "DG1", "vP1", "symP1", "RT1", "N1", "BDM1", "RTxDG0"
 
 \* integrand shapes; rank is implied
 Terms == {"mass", "stiff", "conv", "coefmass", "xmass", "cten", "divdiv", "curlcurl", "mixeddiv",
-          "load", "gradload", "energy", "xint", "deriv", "cond", "absmax", "tworules", "hess", "cplx",
+          "load", "gradload", "energy", "xint", "deriv", "cond", "absmax", "tworules", "hess", "cplx", "geo",
           "mathfn", "mathfn2", "cmathfn", "bessel"}
 Rank(t) == CASE t \in {"load", "gradload"} -> 1 [] t \in {"energy", "xint"} -> 0 [] OTHER -> 2
 \* polynomial degree added by the term on top of the two element degrees (coefficient/x factors)
@@ -53,6 +53,8 @@ Valid(c) ==
   \* term / element compatibility
   /\ (c.term \in {"conv", "cond", "absmax", "hess", "deriv", "cplx"} => Scalar(c.elem) /\ c.elem \notin {"real", "quad"})
   /\ (c.term = "cplx" => c.elem \in {"P1", "P2", "DG1"} /\ c.rule # "exact")
+  /\ (c.term = "geo" => c.cell \in {"interval", "triangle", "quadrilateral"} /\ c.elem \in {"P1", "P2", "DG0"}
+                         /\ c.geom = "affine" /\ c.xdeg = 1)
   \* transcendental functions of coefficients / constants / x: libm on exact arguments (never an exact rule)
   /\ (c.term \in {"mathfn", "mathfn2", "cmathfn", "bessel"} => c.elem \in {"P1", "P2", "DG1", "DG0"} /\ c.rule # "exact")
   /\ (c.term \in {"stiff", "cten", "gradload"} => ~Piola(c.elem) /\ c.elem \notin {"DG0", "real", "quad"})
@@ -81,14 +83,16 @@ ValidCases == {c \in Case : Valid(c)}
 (* facet and vertex integrals (C02, C03) *)
 FCells == Cells \cup {"prism"}
 Measures == {"ds", "dS", "dP"}
-FTerms == {"mass", "flux", "coef", "xw", "nload", "fload", "area",          \* ds / dP
-           "jump", "avgflux", "pm", "coefpm", "jumpload", "njump"}            \* dS
+FTerms == {"mass", "flux", "coef", "xw", "nload", "fload", "area", "geods",  \* ds / dP
+           "jump", "avgflux", "pm", "coefpm", "jumpload", "njump", "geodS"}   \* dS
 FRank(t) == CASE t \in {"nload", "fload", "jumpload"} -> 1 [] t = "area" -> 0 [] OTHER -> 2
 FElems == {"P1", "P2", "DG0", "DG1", "vP1", "RT1", "N1", "TH"}
 FCase == [cell : FCells, elem : FElems, term : FTerms, measure : Measures, rule : {"exact", "custom", "vertex"}]
 
 FValid(c) ==
-  /\ (c.measure = "dS" <=> c.term \in {"jump", "avgflux", "pm", "coefpm", "jumpload", "njump"})
+  /\ (c.measure = "dS" <=> c.term \in {"jump", "avgflux", "pm", "coefpm", "jumpload", "njump", "geodS"})
+  \* geometric quantities (circumradius, diameter, edge lengths, volume, facet area): degree-1 cells in 1D/2D
+  /\ (c.term \in {"geods", "geodS"} => c.cell \in {"interval", "triangle", "quadrilateral"} /\ c.elem \in {"P1", "DG0", "DG1"})
   /\ (c.measure = "dP" => c.term \in {"mass", "coef", "fload"} /\ c.elem \in {"P1", "P2", "vP1"} /\ c.rule = "exact"
                           /\ c.cell # "prism")
   /\ (c.elem \in {"RT1", "N1", "TH"} => c.cell \in {"triangle", "tetrahedron"})
